@@ -84,6 +84,13 @@ def cases(tier, rng, schema, feats):
         add("dec2", "01a107a1627a7a" + head, tag="len")
         add("dec2", "02a201" + head, tag="len")
         add("dec2", "01a104" + head, tag="len")
+    # long lists of unsupported entries inside well-formed requests (counters, early exits): 200..300 entries
+    from . import c14 as _c14
+    for count in (200, 255, 256, 257, 300):
+        add("dec2", _c14.mc([_c14.entry(-257, "public-key")] * count).hex(), tag="long")
+        add("dec2", _c14.mc([_c14.entry(-7, "public-key")], ["tpm"] * count).hex(), tag="long")
+        add("dec2", (b"\x02" + cbor.enc(cbor.M([(1, "example.com"), (2, b"\x22" * 32), (9, ["android-key"] * count)]))).hex(), tag="long")
+        add("dec2", _c14.mc([_c14.entry(-8, "public-key")] * count, ["packed"] * count).hex(), tag="long")
     return out
 
 
